@@ -85,6 +85,8 @@ type Pool struct {
 	// ItemTimeout: a worker that does not answer an item within this time is
 	// killed and the item reported as Crashed with "TIMEOUT" (default 20 min).
 	ItemTimeout time.Duration
+	// Recycle > 0: a worker process handles at most this many items, then a fresh one is started.
+	Recycle int
 }
 
 // Workers returns the default worker count.
@@ -136,11 +138,17 @@ func (p *Pool) Run(items []json.RawMessage, handle func(PoolResult)) int {
 		wg.Add(1)
 		go func() {
 			defer wg.Done()
+			pending := -1
 			for {
-				i := take()
+				i := pending
+				pending = -1
+				if i < 0 {
+					i = take()
+				}
 				if i < 0 {
 					return
 				}
+				handled := 0
 				// (re)start a worker process and feed it items until it dies or we are done
 				cmd := exec.Command(os.Args[0], "--worker", p.Mode)
 				cmd.Env = append(append(os.Environ(), "GOMAXPROCS=2", "VERIF_WORKER=1"), p.Env...)
@@ -206,6 +214,19 @@ func (p *Pool) Run(items []json.RawMessage, handle func(PoolResult)) int {
 						emit(PoolResult{Index: i, Res: wr.Res, Err: wr.Err})
 					}
 					i = take()
+					handled++
+					if p.Recycle > 0 && handled >= p.Recycle && i >= 0 {
+						// a fresh process for the next item (what a long-lived worker accumulates - Badger instances
+						// opened and closed by the thousand keep memory - is given back to the system)
+						stdin.Close()
+						io.Copy(io.Discard, rd)
+						cmd.Wait()
+						pending = i
+						break
+					}
+				}
+				if pending >= 0 {
+					continue
 				}
 				if i < 0 {
 					stdin.Close()
